@@ -72,6 +72,11 @@ def check_pair(acc, pendulum, za, ia, zb, ib, clone_b=False, native=True):
              ("abs", lambda: abs(b - a), abs(diff)),
              ("absolute=True", lambda: pendulum.interval(a, b, absolute=True), abs(diff)),
              ("diff-default", lambda: a.diff(b), abs(diff))]
+    if native and za is not None and (ia + ib) % 3 == 0:
+        # an Interval built directly from native endpoints (Interval.__init__ wraps them with instance())
+        na_, nb_ = _native(za, ia), _native(zb, ib)
+        if obs.offset_s(na_) == obs.offset_s(a) and obs.offset_s(nb_) == obs.offset_s(b) and na_.tzinfo is not nb_.tzinfo:
+            forms.append(("interval-of-natives", lambda: pendulum.Interval(na_, nb_), diff))
     first = None
     for name, fn, want in forms:
         r = fn()
